@@ -14,6 +14,7 @@ import (
 
 	"github.com/alicebob/miniredis/v2"
 	"github.com/alicebob/miniredis/v2/server"
+	red "github.com/redis/go-redis/v9"
 	"github.com/zeromicro/go-zero/core/logx"
 	"github.com/zeromicro/go-zero/core/stores/cache"
 	"github.com/zeromicro/go-zero/core/stores/redis"
@@ -184,6 +185,39 @@ type envT struct {
 	mu     sync.Mutex
 	outage bool       // every data command answers with an error
 	cmds   []redisCmd // data commands received since the last reset
+
+	// cmdHook, when set (fault scenarios of the schedule engine), is told about every command of
+	// the single-node client right after its reply arrived, IN THE CALLING GOROUTINE (a go-redis
+	// hook): the controlled thread that issued it, so it can use vsched.ThreadID / vsched.Log.
+	cmdHook func(name, key, reply string)
+}
+
+// cmdSpy is the go-redis hook behind envT.cmdHook; it only observes.
+type cmdSpy struct{}
+
+func (cmdSpy) DialHook(next red.DialHook) red.DialHook { return next }
+func (cmdSpy) ProcessPipelineHook(next red.ProcessPipelineHook) red.ProcessPipelineHook {
+	return next
+}
+func (cmdSpy) ProcessHook(next red.ProcessHook) red.ProcessHook {
+	return func(ctx context.Context, cmd red.Cmder) error {
+		err := next(ctx, cmd)
+		if env != nil && env.cmdHook != nil {
+			key := "-"
+			if a := cmd.Args(); len(a) > 1 {
+				key = fmt.Sprint(a[1])
+			}
+			reply := "ok"
+			switch {
+			case err == red.Nil:
+				reply = "miss"
+			case err != nil:
+				reply = "ERR"
+			}
+			env.cmdHook(strings.ToUpper(cmd.Name()), key, reply)
+		}
+		return err
+	}
 }
 
 var env *envT
@@ -208,7 +242,7 @@ func initEnv() {
 	e := &envT{mr: mr}
 	e.installHook(mr)
 	e.single = &backend{mrs: []*miniredis.Miniredis{mr}, ixActual: keyIx}
-	e.rds = redis.VerifNewNopBreaker(mr.Addr())
+	e.rds = redis.VerifNewNopBreaker(mr.Addr(), redis.WithHook(cmdSpy{}))
 	// warm the client (connection pool, handshake) outside any history / execution
 	if !e.rds.Ping() {
 		vlib.Fatal("cannot ping miniredis")
@@ -377,6 +411,7 @@ func (e *envT) reset() {
 	e.outage = false
 	e.cmds = nil
 	e.mu.Unlock()
+	e.cmdHook = nil
 	setJitter(0)
 }
 
